@@ -233,3 +233,25 @@ Theorem C01_huffman_literals_section_round_trip : forall blockMax prev ltype sf 
   decode_literals blockMax prev (sec ++ tail) = Ok (lits, Some ht, lenN sec, ltype + (if sf =? 0 then 0 else 4)).
 Proof. exact decode_lits_huf. Qed.
 Print Assumptions C01_huffman_literals_section_round_trip.
+
+(* ---- the LZ compressor model end to end: any split of the input into raw / RLE / compressed blocks, any parse per
+        compressed block whose validity is a check on numbers and plain lists (EncodeLzFrame.pblocks_run), any frame
+        parameters, any dictionary content: the frame decodes to what the parses stand for ---- *)
+From ZV.Codec Require Import EncodeLzFrame EncodeLzFrameProofs TableWf.
+
+Theorem C01_lz_compressor_model_lossless : forall cfg d p dictID pbs ebs z rest,
+  let content := blocks_content ebs in
+  let win := frame_window p (lenN content) in
+  let blockMax := N.min (N.min win BLOCK_MAX) (c_block_max cfg) in
+  pbs <> [] ->
+  pblocks_run (c_strict_window cfg) win blockMax (z_init d) pbs = Some (ebs, z) ->
+  params_ok p (lenN content) dictID -> c_magicless cfg = fp_magicless p -> win <= c_window_max cfg -> dict_ok d p dictID ->
+  (exists t, decode_frame cfg d (enc_frame p dictID ebs ++ rest) = Ok (content, t, rest)) /\
+  z_hist z = rev content ++ rev' (dict_content d) /\ z_pos z = lenN content.
+Proof. exact lz_model_lossless. Qed.
+Print Assumptions C01_lz_compressor_model_lossless.
+
+(* every decoding table built from normalised counts has 2^log cells (hypothesis table_wf of the block theorem) *)
+Theorem C01_built_tables_are_well_formed : forall log counts t, build_dtable log counts = Ok t -> table_wf t /\ ft_log t = log.
+Proof. exact build_dtable_wf. Qed.
+Print Assumptions C01_built_tables_are_well_formed.
